@@ -193,6 +193,21 @@ def check_refs(case, ctx):
             # offsets themselves are then determined: equal to the hidden ones
             ctx.close('C10.refs/offsets', [obj.offset.get(descs[j], np.nan) for j in present], hidden[present], rtol=1e-7,
                       atol=1e-7 * scale)
+    # ---- the same three oracles in the fit's own (dimensionless) terms, which do not need equal reference temperatures:
+    # every reference's DFT H/RT is taken at ITS OWN T_ref (the harness computed `dft` that way), so
+    # r = dft - A.offset - exp is zero for a consistent system, orthogonal to A always, and offset = hidden at full rank
+    offv = np.array([obj.offset.get(descs[j]) if obj.offset.get(descs[j]) is not None else np.nan for j in present], dtype=float)
+    if len(present) and np.all(np.isfinite(offv)):
+        r_own = dft[live] - Ap @ offv - exp[live]
+        nA = np.linalg.norm(Ap) + 1
+        if case['noise'] == 'consistent':
+            ctx.close('C10.refs/reproduce-own-T_ref', r_own, np.zeros_like(r_own), rtol=0, atol=1e-8 * scale * nA,
+                      detail='T_refs=%r' % (list(T_refs[live]),))
+            if full:
+                ctx.close('C10.refs/offsets-own-T_ref', offv, hidden[present], rtol=1e-7, atol=1e-7 * scale)
+        g_own = Ap.T @ r_own
+        ctx.close('C10.refs/lsq-orthogonal-own-T_ref', g_own, np.zeros_like(g_own), rtol=0,
+                  atol=1e-7 * nA * (np.linalg.norm(r_own) + scale * 1e-3) + 1e-8 * scale * nA)
     # ---- composition-linear, T-independent, H and G only ---------------------------
     off = {d: obj.offset.get(d) for d in descs}
 
